@@ -207,8 +207,14 @@ pub fn run_check(chk: Check, tier: Tier, seed: u64) -> i32 {
     });
     let _ = std::fs::create_dir_all(format!("{}/evidence", dir));
     std::fs::write(format!("{}/evidence/{}.json", dir, chk.id), serde_json::to_string_pretty(&ev).unwrap()).expect("write evidence");
+    let mut printed: Vec<String> = vec![];
     for l in &lines {
-        println!("{}", l);
+        // one line per finding signature (several jobs may reproduce the same one)
+        let key = if l.starts_with("KNOWN-FINDING") { l.split(" replay=").next().unwrap_or(l).to_string() } else { l.clone() };
+        if !printed.contains(&key) {
+            println!("{}", l);
+            printed.push(key);
+        }
     }
     println!(
         "{} {}: states={} transitions={} nontrivial={} validated={} exhaustive={} violations={} known={} wall={:.1}s",
